@@ -281,6 +281,8 @@ func c20(e *Env) {
 			ob3.Fail(core.FuncName(sortfn), "no sort.Slice call in the sort function")
 		}
 	}
+	// ---- R6 shared with C10.R8: one record (one ID) per task execution, or a task is listed once per output
+	e.oneRecordPerTask("R6")
 	// ---- R4 converters
 	e.c20Converters(cmdPkg, flatten, sortfn)
 }
